@@ -14,6 +14,7 @@ def opHandle (l : Line) : Except String String := do
   let pid ← l.bytes "pid"
   let iv ← l.int "iv"
   let miv ← l.int "miv"
+  if !checkConfig c then pure "refused\trefuse" else   -- `NewHook` refuses the configuration
   match handle c ih pid iv miv with
   | none => pure "PANIC\tpanic"
   | some (a, b) =>
